@@ -44,6 +44,10 @@ NoC == C("")
 RECURSIVE BackslashesBefore(_, _)
 BackslashesBefore(t, i) == IF i > 1 /\ t[i - 1] = 92 THEN 1 + BackslashesBefore(t, i - 1) ELSE 0
 EscapedAt(t, i) == BackslashesBefore(t, i) % 2 = 1
+RECURSIVE UnescapePairs(_)
+UnescapePairs(t) == IF t = <<>> THEN <<>>
+                    ELSE IF t[1] = 92 /\ Len(t) >= 2 THEN <<t[2]>> \o UnescapePairs(SubSeq(t, 3, Len(t)))
+                    ELSE <<t[1]>> \o UnescapePairs(Tail(t))
 \* all failing clauses of a string observation
 StrClauses(o) ==
     LET P == ParseStr(o.src)
@@ -89,6 +93,11 @@ StrClauses(o) ==
       IF ~Ok(o.rd) THEN C("RegexLiteral:exception")
       ELSE IF \E i \in 1..Len(o.rd.out.text) : o.rd.out.text[i] = o.rdelim /\ ~EscapedAt(o.rd.out.text, i) THEN C("RegexLiteral:bare-delimiter")
       ELSE IF {o.rd.out.matches[j] : j \in 1..Len(o.rd.out.matches)} # {s \in Subjects : WildMatch(P, s)} THEN C("RegexLiteral:language")
+      \* escaped for a target whose escape character is escaped too: still no bare delimiter, and undoing the escapes
+      \* (backslash + c stands for c) gives back the expression the value stands for
+      ELSE IF ~Ok(o.rdesc) THEN C("RegexLiteral:escape-exception")
+      ELSE IF \E i \in 1..Len(o.rdesc.out.esc) : o.rdesc.out.esc[i] = o.rdelim /\ ~EscapedAt(o.rdesc.out.esc, i) THEN C("RegexLiteral:escaped-bare-delimiter")
+      ELSE IF UnescapePairs(o.rdesc.out.esc) # o.rdesc.out.plain THEN C("RegexLiteral:escapes-undone")
       ELSE NoC,
       \* regex transformation: plain = same language; the two ignore-case methods = the case-insensitive language
       LET SubjCI == SeqsUpTo({o.subjci[j] : j \in 1..Len(o.subjci)}, 3)
